@@ -1,7 +1,34 @@
 """C10 A full prune leaves no waste and reports accurate statistics."""
+import json, os
 from props import repo_common
 
 
 def run(ctx):
     out = ctx.go_test("cmd/restic", "^TestVerif_C10$", timeout=3000, tags=["c10", "c11", "common"])
-    return repo_common.finish_trace(ctx, out, "model_checking")
+    # the index after every completed full prune as a reopened repository enumerates it (entries with
+    # multiplicity), judged by Fn_PruneIndex.tla: exactly the needed blobs, none twice, packs = indexed packs,
+    # reported Blobs.Remain = number of entries
+    n_idx, bad, lines = ctx.check_records("Fn_PruneIndex", os.path.join(out, "recs_index.ndjson"), name="index")
+    for i in bad[:100]:
+        r = json.loads(lines[i - 1])
+        blobs = [e[0] for e in r["entries"]]
+        twice = sorted({b for b in blobs if blobs.count(b) > 1})
+        extra = sorted(set(blobs) - set(r["needed"]))
+        lost = sorted(set(r["needed"]) - set(blobs))
+        pk = {e[1] for e in r["entries"]}
+        if twice:
+            what = "blob-twice-in-index"
+        elif extra:
+            what = "unneeded-blob-in-index"
+        elif lost:
+            what = "needed-blob-not-in-index"
+        elif pk != set(r["packs"]):
+            what = "packs-differ-from-indexed-packs"
+        else:
+            what = "reported-remaining-blobs-wrong"
+        ctx.violate("prune-full/after/index/%s" % what,
+                    "history %s (%s): after a completed full prune the index has %d entries (reported remaining: %d); blobs listed twice: %s; not needed: %s; needed but missing: %s; packs without entry: %s; entries for missing packs: %s" % (
+                        r["history"], r.get("waste"), len(blobs), r["remain"], twice[:5], extra[:5], lost[:5],
+                        sorted(set(r["packs"]) - pk)[:5], sorted(pk - set(r["packs"]))[:5]),
+                    {"history": r["history"]})
+    return repo_common.finish_trace(ctx, out, "model_checking", extra_cov={"full_prune_indexes_judged_by_Fn_PruneIndex": n_idx})
